@@ -166,6 +166,11 @@ class GuardFlow:
                 key = 'L:%d' % pl['l']
                 st.pop(key, None)
                 st.pop('A:%d' % pl['l'], None)
+                la = self.atom_of(('local', fn.local_name(pl['l']))) if fn.local_name(pl['l']) else None
+                if la is not None:
+                    st.pop(la, None)
+                    if rv['k'] == 'use' and rv['op']['k'] == 'const' and 'bool' in rv['op']:
+                        st[la] = rv['op']['bool']
                 if rv['k'] == 'use' and rv['op']['k'] == 'const' and 'bool' in rv['op']:
                     st[key] = rv['op']['bool']
                 elif rv['k'] == 'use':
@@ -237,6 +242,11 @@ class GuardFlow:
                         continue
                     ns = dict(st)
                     ns[key] = truth
+                    la = self.atom_of(('local', self.fn.local_name(l))) if self.fn.local_name(l) else None
+                    if la is not None:
+                        if la in ns and ns[la] != truth:
+                            continue
+                        ns[la] = truth
                     if alias:
                         a, pos = alias
                         av = truth if pos else (not truth)
